@@ -80,7 +80,11 @@ def problem(ctx, k):
 class Library:
     """N distinct rows; cols = float64 arrays in internal units; lnp = recognisable ln_prior values"""
 
-    def __init__(self, rng, pr, N, with_ln_prior=True):
+    def __init__(self, rng, pr, N, with_ln_prior=True, foreign=False):
+        """foreign=True stores the columns in other (valid) units than the kernel's internal ones: the sampler then
+        has to convert them (pack / read_batch) and "the values of one evaluated prior sample" is checked physically,
+        to 4 ulp, instead of bit for bit"""
+        self.foreign = bool(foreign)
         for _ in range(20):
             samples, phys = scen.make_library(rng, pr, N, units="canonical", ln_prior=False)
             if len(set(core.bits_list(phys["P"]))) == N:
@@ -89,6 +93,19 @@ class Library:
             raise core.Infra("could not build a library with distinct periods")
         self.N = N
         self.pr = pr
+        if self.foreign:
+            import astropy.units as u
+            import thejoker as tj
+            internal = dict(P=u.day, e=u.one, omega=u.rad, M0=u.rad, s=pr.data_unit)
+            store = dict(P=u.Unit(str(rng.choice(["yr", "hour"]))), e=u.one, omega=u.Unit(str(rng.choice(["deg", "rad"]))),
+                         M0=u.deg, s=u.Unit("m/s") if pr.data_unit != u.Unit("m/s") else u.Unit("km/s"))
+            conv = tj.JokerSamples(poly_trend=pr.p, n_offsets=pr.q)
+            for k in NONLIN:
+                conv[k] = samples[k].to(store[k])
+            samples = conv
+            # the physical value of a stored column is what a correct conversion back gives
+            phys = {k: np.asarray(samples[k].to_value(internal[k]), dtype="f8") for k in NONLIN}
+            self.store_units = {k: str(v) for k, v in store.items()}
         self.cols = {k: np.array(phys[k], dtype="f8") for k in NONLIN}
         # recognisable, pairwise distinct, not monotone in the row number
         self.lnp = np.array([((j * 7919) % 10007) + 0.25 + j * 1e-3 for j in range(N)], dtype="f8")
@@ -98,6 +115,22 @@ class Library:
         self.has_lnp = with_ln_prior
         self.row_of = {core.bits(p): j for j, p in enumerate(self.cols["P"])}
         self._file = None
+
+    def find_row(self, p):
+        """library row whose period is p (bit-identical, or - for libraries in foreign units, where the two
+        conversion routes may differ by an ulp - the unique row within 1e-13 relative)"""
+        j = self.row_of.get(core.bits(p), -1)
+        if j >= 0 or not self.foreign:
+            return j
+        P = self.cols["P"]
+        k = int(np.argmin(np.abs(P - p)))
+        return k if abs(P[k] - p) <= 1e-13 * abs(P[k]) else -1
+
+    def same_value(self, k, got, j):
+        want = self.cols[k][j]
+        if core.bits(got) == core.bits(want):
+            return True
+        return self.foreign and abs(got - want) <= 9e-16 * abs(want)
 
     def filename(self):
         if self._file is None:
@@ -155,7 +188,7 @@ class Proxy:
 
     def batch_marginal_ln_likelihood(self, chunk):
         chunk = np.asarray(chunk)
-        rows = [self._lib.row_of.get(core.bits(p), -1) for p in chunk[:, 0]]
+        rows = [self._lib.find_row(p) for p in chunk[:, 0]]
         real = None
         if self._profile is None or any(r < 0 for r in rows):
             real = np.array(self._real.batch_marginal_ln_likelihood(np.ascontiguousarray(chunk, dtype="f8")))
@@ -265,11 +298,11 @@ def table_rows(lib, s, n_linear):
         return None, f"{n} rows is not a multiple of n_linear_samples={n_linear}"
     rows = []
     for r in range(n):
-        j = lib.row_of.get(core.bits(arr["P"][r]), -1)
+        j = lib.find_row(arr["P"][r])
         if j < 0:
             return None, f"returned row {r}: P={arr['P'][r]!r} is not the P of any library row (modified or invented)"
         for k in NONLIN:
-            if core.bits(arr[k][r]) != core.bits(lib.cols[k][j]):
+            if not lib.same_value(k, arr[k][r], j):
                 return None, (f"returned row {r}: {k}={arr[k][r]!r} differs from library row {j} "
                               f"({lib.cols[k][j]!r}) that has its P")
         rows.append(j)
